@@ -186,6 +186,32 @@ def src_limits():
     for k, (pl, (title, step, row, content, media)) in enumerate(places.items()):
         out.append((f"placeholder-only-in:{pl}", f"@t<a>\nFeature: f <a>\n  <a> in a description\n  Background:\n    Given b <a>\n  {title}\n    {step}\n      {row}\n    And t\n      \"\"\"{media}\n      {content}\n      \"\"\"\n"
                     f"    @e<a>\n    Examples: x <a>\n      | a | b |\n      | 1 |  |\n      |  | 2 |\n", "en"))
+    # several examples tables whose headers go A, B, A (document order, not grouped); a step-less outline whose name carries the placeholder
+    out.append(("examples-headers-aba", "Feature: f\n  Scenario Outline: o <a><b>\n    Given <a> <b>\n    Examples: one\n      | a |\n      | 1 |\n    Examples: two\n      | b |\n      | 2 |\n    Examples: three\n      | a |\n      | 3 |\n"
+                "    Examples: four\n      | b |\n      | 4 |\n      | 5 |\n", "en"))
+    out.append(("stepless-outline-with-rows", "Feature: f\n  Scenario Outline: n <a> <b>\n    Examples:\n      | a | b |\n      | 1 | 2 |\n      | 3 | 4 |\n  Rule: r\n    Scenario Outline: m <a>\n      @t\n      Examples:\n        | a |\n        | 5 |\n", "en"))
+    # tag lines of one element on lines 9 and 10, and 99 and 100 (line numbers as text sort differently)
+    out.append(("tag-lines-9-10", "Feature: f\n" + "\n" * 7 + "  @nine @n2\n  @ten\n  Scenario: s\n    Given x\n" + "  # c\n" * 86 + "  @ninetynine\n  @hundred @h2\n  Scenario Outline: o\n    Given <a>\n    Examples:\n      | a |\n      | 1 |\n", "en"))
+    # two rules with the same NUMBER of tags but different tags; a rule without tags between tagged ones
+    out.append(("rules-same-tag-count", "@f\nFeature: f\n  @a @b\n  Rule: one\n    Scenario: s\n      Given x\n  @c @d\n  Rule: two\n    @e\n    Scenario: t\n      Given y\n  Rule: three\n    Scenario: u\n      Given z\n"
+                "  @g @h\n  Rule: four\n    Scenario Outline: v\n      Given <a>\n      @i\n      Examples:\n        | a |\n        | 1 |\n      @j\n      Examples:\n        | a |\n        | 2 |\n", "en"))
+    # a rule-level background whose step has a table (small: every layout application is tried); shapes of rules and backgrounds that end early
+    out.append(("rule-background-table", "Feature: f\n  Rule: r\n    Background:\n      Given q\n        | g |\n        | h |\n    Scenario: t\n      Then u\n", "en"))
+    out.append(("rule-shapes:0", "Feature: f\n  Rule: only a background\n    Background:\n      Given rb\n  Rule: next\n    Scenario: s\n      Given x\n  Rule: last\n    Background:\n      Given lb\n    Scenario: t\n      Given y\n", "en"))
+    out.append(("rule-shapes:1", "Feature: f\n  Background:\n    Given fb\n  Rule: stepless background\n    Background:\n    Scenario: s\n      Given x\n  Rule: later\n    Scenario: t\n      Given y\n", "en"))
+    out.append(("rule-shapes:2", "Feature: f\n  Rule: with background\n    Background:\n      Given rb\n    Scenario: s\n      Given x\n  Rule: later\n    Scenario: t\n      Given y\n  Rule: empty\n  Rule: last\n    Scenario: u\n      Given z\n", "en"))
+    # a first line that looks like an encoding declaration of another language's tools (feature files are UTF-8 whatever they say)
+    out.append(("coding-comment:0", "# -*- coding: latin-1 -*-\nFeature: caf\u00e9 \u20ac\n  Scenario: s\n    Given \u00e9\n", "en"))
+    out.append(("coding-comment:1", "# language: fr\n# vim: set fileencoding=cp1252 :\nFonctionnalit\u00e9: f\n", "en"))
+    out.append(("coding-comment:2", "# file encoding: no-such-codec\nFeature: f \u00e9\n", "en"))
+    # a doc string line indented LESS than the opening delimiter that also carries the escaped delimiter
+    out.append(("outdented-escaped-delimiter", "Feature: f\n  Scenario: s\n    Given x\n        \"\"\"\n  a \\\"\\\"\\\" b\n\\\"\\\"\\\"\n        c \\\"\\\"\\\"\n        \"\"\"\n    And y\n        ```\n   \\`\\`\\`\n        ```\n", "en"))
+    # a title keyword and its colon are one piece: blanks (space, tab, no-break space -- French typography) or another colon character between them make the line free text
+    for k, (gap, colon) in enumerate([(" ", ":"), ("\t", ":"), ("\u00a0", ":"), ("", "\uff1a"), ("", " :"), ("", ";")]):
+        out.append((f"keyword-colon-apart:{k}:after-step", f"Feature: f\n  Scenario: s\n    Given x\n  Scenario{gap}{colon} t\n    Given y\n", "en"))
+        out.append((f"keyword-colon-apart:{k}:in-description", f"Feature: f\n  some text\n  Scenario{gap}{colon} not a scenario\n  Background{gap}{colon}\n  Examples{gap}{colon}\n  Rule{gap}{colon} r\n  Scenario: s\n    Given x\n", "en"))
+        out.append((f"keyword-colon-apart:{k}:feature", f"Feature{gap}{colon} f\n  Scenario: s\n", "en"))
+        out.append((f"keyword-colon-apart:{k}:fr", f"# language: fr\nFonctionnalit\u00e9: f\n  Sc\u00e9nario: s\n    Soit x\n      | a |\n  Sc\u00e9nario{gap}{colon} t\n  Exemples{gap}{colon}\n", "en"))
     # counts beyond any small-number threshold (caches, recursion depth, fixed-size buffers): more than a thousand of each repeatable construct
     N = 1100
     out.append(("count:tags-on-line", " ".join(f"@t{i}" for i in range(300)) + "\nFeature: f\n  " + "".join(f"@u{i}" for i in range(300)) + "\n  Scenario: s\n", "en"))
@@ -481,6 +507,15 @@ def usage_variants_pass(rep: Reporter, sources, label: str = "usage") -> None:
                     p.stop_at_first_error = stop
                     return p.parse(s, TokenMatcher(dialect))
                 variants["builder assigned after construction"] = assigned_later
+
+                def front_matter_consumed(k=3):
+                    """the caller has read k lines of front matter from the scanner before handing it to the parser: the lines keep their physical numbers"""
+                    sc = TokenScanner("---\n" * k + s)
+                    for _ in range(k):
+                        sc.read()
+                    return parser().parse(sc, TokenMatcher(dialect))
+                if not s.startswith("---") and "\x00" not in s:
+                    variants["TokenScanner after 3 lines were read from it"] = front_matter_consumed
                 if dialect == "en":
                     variants["default matcher"] = lambda: parser().parse(s)
                     variants["default builder"] = lambda: _default_builder(Parser(), stop).parse(s, TokenMatcher("en"))
@@ -493,6 +528,8 @@ def usage_variants_pass(rep: Reporter, sources, label: str = "usage") -> None:
                 for how, fn in variants.items():
                     got, _ = S.outcome(fn)
                     rep.case((label, how, stop, name))
+                    if how.startswith("TokenScanner after"):
+                        got = _shift_lines(got, -3)
                     if got != ref:
                         rep.violation({"kind": "usage-variant"}, {"engine": "usage", "what": f"the source given as {how} (stop_at_first_error={stop}) gives a different outcome than the same text given as a str",
                                                                   "source": s, "as_str": str(ref)[:400], "variant": str(got)[:400]})
@@ -500,6 +537,14 @@ def usage_variants_pass(rep: Reporter, sources, label: str = "usage") -> None:
     finally:
         shutil.rmtree(d, ignore_errors=True)
     rep.traces += n
+
+
+def _shift_lines(v, k):
+    if isinstance(v, dict):
+        return {a: (b + k if a == "line" and isinstance(b, int) else _shift_lines(b, k)) for a, b in v.items()}
+    if isinstance(v, list):
+        return [_shift_lines(x, k) for x in v]
+    return v
 
 
 def _default_builder(parser, stop):
